@@ -1064,7 +1064,7 @@ impl From<Vec<Relation>> for Entry {
         for (i, relation) in relations.into_iter().enumerate() {
             if i > 0 {
                 builder.token(WHITESPACE.into(), " ");
-                builder.token(COMMA.into(), "|");
+                builder.token(PIPE.into(), "|");
                 builder.token(WHITESPACE.into(), " ");
             }
             inject(&mut builder, relation.0);
